@@ -83,6 +83,15 @@ CHECKS = {
         note="Trusted: the row model; numeric comparison of cell values; DuckDB results compared flattened (klongpy squeezes them); "
              "index columns unique when .index is called.",
         design="3/C19"),
+    "C07": dict(
+        category="fault_enumeration",
+        technique="exhaustive enumeration of gradient forms x parameter shapes x fault positions (probe raising at its k-th call for every k) x backends, plus Hypothesis-generated parameter values; before/after state snapshot as oracle",
+        text="Every gradient form (f:>p, p-nabla-f with symbol and literal, Jacobian forms, .jacobian, multi-parameter forms) is run on "
+             "both backends with a loss that succeeds, raises at each possible evaluation, returns a non-scalar or names an unknown "
+             "variable; the bit-exact snapshot (value, type, dtype, requires_grad) of all user variables and the loss value must be "
+             "identical before and after. Exhaustive over fault positions per form/shape.",
+        note="Trusted: snapshot function; probe counting; closed set of forms and four parameter shapes plus generated real vectors.",
+        design="3/C07"),
 }
 
 NOT_APPLICABLE = {
